@@ -32,7 +32,7 @@ ASSUMPTIONS = c13.ASSUMPTIONS + ['"meaning of the generated code" is compared as
 META = {
     "text": "Proved for all inputs on model M2: scan_render — for every well-formed token list (inert chunks, `<` operator, variables with/without adjacent index `[ w1 text w2 ]`, `{ w1 n w2 }` / `< w1 n w2 >` terms with optional index, functions `n w (`, keywords of the reflected keyword.kwlist, verbatim fragments) and EVERY choice of the whitespace strings, scanning the rendered text returns exactly the tokens' (kind, name, raw index, span) in order; layout_invariance_scan / layout_invariance_terms — two layouts of the same tokens give the same matches and the same parsed terms (kind, name, lag/lead index), explicit `[0]` = no index; split_concat — after a complete part the line-buffer automaton is back in its initial state, so the statements of l1 ++ l2 (and of s1 ++ '\\n' ++ s2) are those of the parts, an error in the first part is final, blank and comment-only lines are neutral; normaliseWs is idempotent. On every run the driver confirms that the statements of the generated scripts under every layout satisfy the hypotheses of scan_render (executable checker wfB, proved sound).",
     "design_ref": "DESIGN.md §5 M2, §6 C14 (and C01 scan_render), §7 row 11, §10 fall-back, Appendix C",
-    "note": "scan_render is fully proved for the token grammar above (not a _partial); outside it: a literal `{` that is not a parameter, identifiers glued to numbers (`1e5`), empty index text. layout_invariance is proved at scanner/term level; the step to Symbols (Symbol.combine, cross-statement merge, permutation) and the normal-form fixed point at symbol level belong to M3 and are covered here by the metamorphic oracle on the real code (layouts, merge of single-statement parses, permutations, re-parse of normalised equations) and by strict correspondence. Known findings: whitespace between a name and `[` is not neutral; whitespace inside/before the index brackets of the left-hand side is rejected.",
+    "note": "scan_render is fully proved for the token grammar above (not a _partial); outside it: a literal `{` that is not a parameter, identifiers glued to numbers (`1e5`), empty index text. layout_invariance is proved at scanner/term level; the step to Symbols (Symbol.combine, cross-statement merge, permutation) and the normal-form fixed point at symbol level belong to M3 and are covered here by the metamorphic oracle on the real code (layouts, merge of single-statement parses, permutations, re-parse of normalised equations) and by strict correspondence. Known findings (open; the regex patch was not applied to /repo): whitespace between a name and `[` is not neutral; whitespace inside/before the index brackets of the left-hand side is rejected. Statements are given to the model exactly as to the code (a trailing comment passed directly to parse_equation is lexed by both; through parse_model it is stripped by both).",
     "technique": "Lean 4 proof (single-step lemma per regex alternative + induction over the token list with a boundary condition; automaton decomposition; invariants of the three substitutions) + differential correspondence + metamorphic oracle"
 }
 
